@@ -7,7 +7,7 @@ from .common import MC, P, Q, RecTransport, loop_clean, new_loop
 
 PROPERTY = "C07"
 SENDERS = [P, Q]
-BUDGET_S = {"quick": 300, "thorough": 1800}
+BUDGET_S = {"quick": 600, "thorough": 1800}
 STUBS = ["event loop: VirtualLoop (selector/clock replaced, asyncio scheduling code kept)", "struct/bytes lowering (H07b decodes symbolic session-id and flag bytes)"]
 ASSUMPTIONS = [
     "H07a: previous session id 0 is outside the claim (illegal in SOME/IP-SD); the assertion is conditional on old_id >= 1 but the query ranges over 0..0xFFFF so that the hole cannot widen unnoticed",
